@@ -60,7 +60,7 @@ def run(ctx):
                                                                         "run_trace": [json.loads(x) for x in lines[start:v.line]]})
             ctx.violation(v.bad, keep, "AlignedProp clause %s broken at trace line %d: %s (run started with %s)" % (v.bad, v.line, lines[v.line - 1][:300], lines[start][:200]))
     for need in ("offset-beyond-interval", "start-on-boundary", "jump-over-interval", "consumer-behind", "slow-flush", "flush", "tick"):
-        if named.get(need, 0) == 0:
+        if named.get(need, 0) == 0 and not (ctx.violations or locals().get("fails")):  # no vacuity verdict once something was found
             raise vlib.MachineryError("vacuity: %s never reached" % need)
     ctx.cov["named_situations"] = named
     ctx.cov["rule"] = ("seeded TLC simulation over intervals {2,3,5} x offsets {0,1,4,7,11} (also beyond the interval) x start phases x "
